@@ -488,6 +488,12 @@ impl<SD, E: Exfiltrator> SignalIterator<SD, E> {
 
             match self.signals.borrow_mut().poll_pending(has_signals) {
                 Ok(Some(pending)) => self.iter = pending,
+                // The instance may have been closed after the check in the loop condition. In that
+                // case poll_pending bails out without asking has_signals, so the caller has no
+                // wakeup armed and must not be told to wait for one.
+                Ok(None) if self.signals.borrow_mut().handle.is_closed() => {
+                    return PollResult::Closed
+                }
                 Ok(None) => return PollResult::Pending,
                 Err(err) => return PollResult::Err(err),
             }
